@@ -6,11 +6,11 @@ impl<const N: usize> Bvf<{I}, N> {
     pub open spec fn wf(&self) -> bool {
         &&& Self::size_ok()
         &&& self.length <= N * {I.bits}
-        &&& forall|i: int| self.length <= i < N * {I.bits} ==> !bit(self.data@, i)
+        &&& forall|i: int| self.length <= i < N * {I.bits} ==> !bit_at(self.data@, i)
     }
     /// the list of bits, index 0 least significant
     pub open spec fn bits(&self) -> Seq<bool> {
-        Seq::new(self.length as nat, |i: int| bit(self.data@, i))
+        Seq::new(self.length as nat, |i: int| bit_at(self.data@, i))
     }
     pub open spec fn cap() -> int { N * {I.bits} }
 }
@@ -20,9 +20,9 @@ pub open spec fn to_bit(b: bool) -> Bit { if b { Bit::One } else { Bit::Zero } }
 
 pub proof fn lemma_zero_words<const N: usize>(d: [{I}; N])
     requires forall|k: int| 0 <= k < N ==> d@[k] == 0{I}
-    ensures forall|i: int| 0 <= i < N * {I.bits} ==> !bit(d@, i)
+    ensures forall|i: int| 0 <= i < N * {I.bits} ==> !bit_at(d@, i)
 {
-    assert forall|i: int| 0 <= i < N * {I.bits} implies !bit(d@, i) by {
+    assert forall|i: int| 0 <= i < N * {I.bits} implies !bit_at(d@, i) by {
         assert(d@[i / {I.bits}] == 0{I});
         lemma_wbit_zero((i % {I.bits}) as {I});
     }
